@@ -152,8 +152,101 @@ Definition check_txtail (pr : term) (ops : list term) : term :=
   | _ => v_parse
   end.
 
+(* ---------- evaluator side: scripts on roundCowState ---------- *)
+Record kst := mkKst {
+  k_stack : list cow;            (* innermost child first, root last *)
+  k_vis : list (list tx);        (* per level: the transactions added there (committed children included) *)
+  k_spec : bool; k_corr : bool; k_nt : N; k_bad : bool; k_first : term
+}.
+
+Definition as_dup (z : Z) : option dupres :=
+  match z with 0%Z => Some DupNone | 1%Z => Some DupTx | 2%Z => Some DupLease | _ => None end.
+
+(* declarative reading of a probe against the transactions visible from the top of the stack:
+   a visible txid must be rejected by the evaluator; with no visible txid and no visible holder of
+   the lease the ledger's answer passes through; a single visible holder decides by its expiry *)
+Definition cow_spec (sup : bool) (hdr : N) (vis : list tx) (id : N) (k : lkey) (base obs : Z) : bool * bool :=
+  let idvis := existsb (fun x => t_id x =? id) vis in
+  let holders := filter (fun x => lkey_eqb (t_key x) k && negb (t_lease x =? 0)) vis in
+  if idvis then (((obs =? 4) || (obs =? 5))%Z, true)
+  else if negb sup || (snd k =? 0) then ((obs =? base)%Z, false)
+  else match holders with
+       | [] => ((obs =? base)%Z, false)
+       | [h] => if hdr <=? t_lv h then ((obs =? 5)%Z, true) else ((obs =? base)%Z, false)
+       | _ => (true, false)
+       end.
+
+Definition k_note (c : kst) (idx : N) (ok : bool) (obs : term) : term :=
+  if k_corr c && negb ok then TL [tn idx; obs] else k_first c.
+
+Inductive cop := KChild | KAdd (x : tx) | KCommit | KDiscard | KProbe (id : N) (k : lkey) (base obs : Z)
+               | KDump (ids leases : term) | KBad.
+Definition as_cop (t : term) : cop :=
+  match t with
+  | TL [TS "c"] => KChild
+  | TL [TS "a"; TZ id; TZ lv; TZ snd_; TZ lease] => KAdd (mkTx (Z.to_N id) 0 (Z.to_N lv) (Z.to_N snd_) (Z.to_N lease))
+  | TL [TS "m"] => KCommit
+  | TL [TS "x"] => KDiscard
+  | TL [TS "q"; TZ id; TZ snd_; TZ lease; TZ base; TZ obs] => KProbe (Z.to_N id) (Z.to_N snd_, Z.to_N lease) base obs
+  | TL [TS "d"; ids; leases] => KDump ids leases
+  | _ => KBad
+  end.
+
+Definition cow_op (p : proto) (hdr : N) (c : kst) (idx : N) (t : term) : kst :=
+  if k_bad c then c else
+  let bad := mkKst (k_stack c) (k_vis c) (k_spec c) (k_corr c) (k_nt c) true (k_first c) in
+  let keep st vs := mkKst st vs (k_spec c) (k_corr c) (k_nt c) false (k_first c) in
+  match as_cop t with
+  | KChild => keep (cow0 :: k_stack c) ([] :: k_vis c)
+  | KAdd x =>
+      match k_stack c, k_vis c with
+      | top :: st, v :: vs => keep (cow_addTx top x :: st) ((x :: v) :: vs)
+      | _, _ => bad
+      end
+  | KCommit =>
+      match k_stack c, k_vis c with
+      | ch :: par :: st, v1 :: v2 :: vs => keep (cow_commitToParent ch par :: st) ((v1 ++ v2) :: vs)
+      | _, _ => bad
+      end
+  | KDiscard =>
+      match k_stack c, k_vis c with
+      | _ :: par :: st, _ :: v2 :: vs => keep (par :: st) (v2 :: vs)
+      | _, _ => bad
+      end
+  | KProbe id k base obs =>
+      match as_dup base with
+      | None => bad
+      | Some b =>
+          let m := dupres_code (cow_check (k_stack c) p hdr id k b) in
+          let '(sp, nt) := cow_spec (p_sup p) hdr (List.concat (k_vis c)) id k base obs in
+          let good := (Z.of_N m =? obs)%Z in
+          mkKst (k_stack c) (k_vis c) (k_spec c && sp) (k_corr c && good)
+                (if nt then k_nt c + 1 else k_nt c) false (k_note c idx good (tn m))
+      end
+  | KDump ids leases =>
+      let root := last (k_stack c) cow0 in
+      let m := TL [TL (map tn (rev (c_ids root))); dump_leases (c_leases root)] in
+      let good := term_eqb (TL [ids; leases]) m in
+      mkKst (k_stack c) (k_vis c) (k_spec c) (k_corr c && good) (k_nt c) false (k_note c idx good m)
+  | KBad => bad
+  end.
+
+Fixpoint cow_ops (p : proto) (hdr : N) (c : kst) (idx : N) (l : list term) : kst :=
+  match l with [] => c | t :: l' => cow_ops p hdr (cow_op p hdr c idx t) (idx + 1) l' end.
+
+Definition check_cow (pr : term) (ops : list term) : term :=
+  match pr with
+  | TL [TZ hdr; TZ sup] =>
+      if (hdr <? 0)%Z then v_parse else
+      let p := mkProto 0 0 (sup =? 1)%Z true in
+      let c := cow_ops p (Z.to_N hdr) (mkKst [cow0] [[]] true true 0 false (TL [])) 0 ops in
+      if k_bad c then v_parse else verdict (k_spec c) (k_corr c) (0 <? k_nt c) (k_first c)
+  | _ => v_parse
+  end.
+
 Definition check (t : term) : term :=
   match t with
   | TL [TS "c11"; pr; TL ops] => check_txtail pr ops
+  | TL [TS "cow"; pr; TL ops] => check_cow pr ops
   | _ => v_parse
   end.
